@@ -143,10 +143,10 @@ PROPS = {
         level_note="user functions are symbolic (raise tables); panic(nil) excluded; a panicking matcher or recovery function is outside the property."),
     "C17": rt(300, 1500, ["handle-rejected"],
         "tables x Handle calls with valid/duplicate/reserved/unknown methods in every position (45%), malformed patterns (25%), patterns equal up to names; dump + Routes + witnesses + Allow + OPTIONS * before and after every call",
-        props=["C17", "C03find"],
-        level_text="C17_check_methods_ok_iff (a method list is accepted iff all methods are known, not reserved, not registered and not repeated), C17_duplicate_rejected, C17_repeated_method_rejected, C17_add_methods_rejects_before_changing; a rejected call returns an error value and no new state in the model (tree_add : res tree).",
-        level_note="partial: 'nothing observable changes' is decided by comparing every observation before/after rejected calls on the implementation (and the dumped tree against the model); the ambiguity clauses are decided by the oracle same_up_to_names.",
-        partial=["C17_ambiguous_pair / C17_no_false_ambiguity not proved (oracle only)"]),
+        props=["C17", "C03find", "C17amb"],
+        level_text="C17_check_methods_ok_iff (a method list is accepted iff all methods are known, not reserved, not registered and not repeated), C17_duplicate_rejected_tree (on every tree: the same pattern+method again is rejected with an error value, never a fault), C17_rejected_add_is_noop (a rejected call returns no new state), C17_tree_add_ambiguous_iff / C17_check_amb_sound / C17_ambiguous_names_live_route_reachable (an 'ambiguous' rejection always names a live route whose text differs from the new pattern only at labels that are twins differing in name or '-' flag), C17_not_ambiguous_when_flag_false, C17_single_chain + C17_twin_of_only_route_rejected_canon (a pattern identical up to parameter names / '-' flags to the ONLY route is always rejected, for canonically spelled patterns).",
+        level_note="C17_twin_of_only_route_rejected_refuted: '/{id:}/{a}' then '/{id}/{b}' is accepted - the empty-rule spelling {id:} is a different text with the same parse, so the walk neither takes the identical-text branch nor the ambiguous branch; such pairs are not 'identical up to parameter names' textually and are excluded from the oracle's must-reject clause. 'Nothing observable changes' is decided by comparing every observation before/after rejected calls on the implementation (the functional model has no partial mutation: this is how F26 was found).",
+        partial=["text-level pat_twin from the ambiguity walk on general trees (exported as amb_walk / twin_text)"]),
     "C18": rt(300, 5000, ["serve-trace", "tracehelper"],
         "routers with WithTrace 70%: TRACE on live/unknown/raw paths, Allow probes, Use; the Trace helper on requests with HTML metacharacters, with/without body",
         props=["C18", "C08head", "Consts"],
